@@ -10,7 +10,7 @@ import threading as _th
 
 from .common import PathAbort, PathEnd, HarnessError
 
-WATCHDOG_S = 20.0
+WATCHDOG_S = 90.0
 
 
 class Deadlock(Exception):
